@@ -319,6 +319,14 @@ func extractLimitsRuleFor(P *Program, R *Report, rule string) {
 		return at.Fn != nil && FuncKey(at.Fn) == kExtract && g.Subject == rpP+".Sign" && (g.BoundA.String() == "1" || g.BoundA.String() == "-1")
 	}})
 	if np := mustFunc(P, R, rule, kNewParams); np != nil {
+		// the factor is used as a signed 64-bit exponent and multiplier (int64(a)): it must fit, or the relation
+		// that is proven is about a - 2^64 while the statement that is reported is about a
+		mp(P, R, rule, kNewParams+":factor-fits-int64", "a structure is built only for a factor that survives the conversion to int64 (a <= MaxInt64)", np, AcceptNilErr(1), &MustPass{NoInterproc: true, Match: intG(func(g Guard) bool {
+			if g.Kind != "int" || g.Subject != "arg#2" || !g.BoundA.isConst() {
+				return false
+			}
+			return (g.Rel == "<=" && g.BoundA.C == 9223372036854775807) || (g.Rel == "<" && g.BoundA.C == -9223372036854775808) // `< 1<<63` prints as the wrapped constant
+		})})
 		mp(P, R, rule, kNewParams+":squares<=4", "a structure is built only for at most 4 squares", np, AcceptNilErr(1), &MustPass{NoInterproc: true, Match: intG(func(g Guard) bool {
 			return g.Kind == "int" && g.Subject == "arg#5" && g.Rel == "<=" && g.BoundA.String() == "4"
 		})})
